@@ -1,6 +1,7 @@
 """C06 - Parse / re-serialise is byte-exact; stacked pickles partition the input."""
 import io
 import os
+import shutil
 import pickletools
 
 from vp import asm, gen, refvm, workload
@@ -153,7 +154,7 @@ def check_one(ctx, label, P_in, rng, other):
     agg.count("delimited_by_" + how)
     for tname, T in tails(rng, other):
         data = P + T
-        for kind in ("bytes", "bytearray", "bytesio@k", "file", "buffered", "pipe", "wrapper", "wrapper-dribble", "mmap@k"):
+        for kind in ("bytes", "bytearray", "bytesio@k", "file", "buffered", "pipe", "wrapper", "wrapper-dribble", "mmap@k", "file-clobbered", "file-relative-clobbered"):
             ch = h(kind.encode() + b"|" + tname.encode() + b"|" + data)
             if not ctx.mine(ch):
                 continue
@@ -187,11 +188,15 @@ def run_kind(ctx, f, label, kind, tname, P, T, names):
             stream = io.BytesIO(junk + data)
             stream.seek(len(junk))
             src = stream
-        elif kind in ("file", "buffered"):
+        elif kind in ("file", "buffered", "file-clobbered", "file-relative-clobbered"):
             tmp = os.path.join(ctx.scratch, f"c06_{os.getpid()}.bin")
             with open(tmp, "wb") as fh:
                 fh.write(junk + data)
-            stream = open(tmp, "rb", buffering=0 if kind == "file" else 64)
+            if kind == "file-relative-clobbered":
+                os.chdir(ctx.scratch)
+                stream = open(os.path.basename(tmp), "rb")
+            else:
+                stream = open(tmp, "rb", buffering=0 if kind == "file" else 64)
             stream.seek(len(junk))
             src = stream
         elif kind == "mmap@k":
@@ -225,6 +230,20 @@ def run_kind(ctx, f, label, kind, tname, P, T, names):
                           f"input begins with a complete pickle but Pickled.load raised {type(e).__name__}: {str(e)[:100]}",
                           witness(label, kind, tname, P, T))
             return
+        if kind in ("file-clobbered", "file-relative-clobbered"):
+            # what was parsed is what is serialised, whatever happens to the file afterwards: it is truncated and
+            # rewritten with other bytes, removed, and the working directory changes
+            stream.close()
+            stream = None
+            with open(tmp, "wb") as fh:
+                fh.write(b"\x80\x02]q\x00." + b"\xee" * 20)
+            os.remove(tmp)
+            tmp = None
+            decoy_dir = os.path.join(ctx.scratch, "c06_elsewhere")
+            os.makedirs(decoy_dir, exist_ok=True)
+            with open(os.path.join(decoy_dir, f"c06_{os.getpid()}.bin"), "wb") as fh:
+                fh.write(b"\xdd" * (len(junk) + len(data)))
+            os.chdir(decoy_dir)
         out = p.dumps()
         if out != P:
             agg.violation(f"dumps-differs:{kind}",
@@ -267,6 +286,9 @@ def run_kind(ctx, f, label, kind, tname, P, T, names):
         if sum(len(op.data) for op in p) != len(P):
             agg.violation("opcode-data-partition", "opcode byte slices do not partition the pickle",
                           witness(label, kind, tname, P, T))
+        if kind in ("file-clobbered", "file-relative-clobbered"):
+            agg.count("clobbered_file_checks")
+            return
         if kind == "mmap@k":
             # (an mmap has no seekable() before Python 3.13, so it is read like a non-seekable stream; only that the
             # pickle at the map's *current position* was parsed is asserted here - by the dumps comparison above)
@@ -302,6 +324,7 @@ def run_kind(ctx, f, label, kind, tname, P, T, names):
                           "no longer readable from the caller's stream (the whole stream was buffered)",
                           witness(label, kind, tname, P, T, rest_len=len(rest)))
     finally:
+        os.chdir(ctx.scratch)
         if stream is not None:
             try:
                 stream.close()
@@ -388,6 +411,49 @@ def stack_checks(ctx, pool, rng, n_stacks):
                               f"stack of {k} pickles parsed into {len(sp)} elements or elements differ from the parts",
                               {"label": "stack", "hex": data[:3000].hex(), "k": k, "stream": kind,
                                "part_lens": [len(x) for x in parts], "got_lens": [len(x) for x in got]})
+    # stacks read from a file opened by a relative name, after the working directory moved to a place where another,
+    # shorter file has the same name (what belongs to the open descriptor is what counts, not what the name means now)
+    here = os.path.join(ctx.scratch, "c06_run_a")
+    there = os.path.join(ctx.scratch, "c06_run_b")
+    os.makedirs(here, exist_ok=True)
+    os.makedirs(there, exist_ok=True)
+    for i, k, parts, data in stacks[:: max(1, len(stacks) // 60)]:
+        ch = h(b"stack|relative-chdir|" + data)
+        if not ctx.mine(ch) or k < 2:
+            continue
+        agg.case(ch, True, {"stack_of": k, "stream": "file-relative-then-chdir", "part_lens": [len(x) for x in parts]})
+        with open(os.path.join(here, "model.pkl"), "wb") as fh:
+            fh.write(b"HD" + data)
+        with open(os.path.join(there, "model.pkl"), "wb") as fh:
+            fh.write(b"HD" + parts[0])
+        os.chdir(here)
+        st = open("model.pkl", "rb")
+        try:
+            st.seek(2)
+            os.chdir(there)
+            try:
+                sp = f.StackedPickle.load(st)
+                got = [p.dumps() for p in sp]
+            except NotImplementedError:
+                continue
+            except Exception as e:
+                agg.violation(f"stack-parse-fails:{type(e).__name__}:file-relative-then-chdir",
+                              f"a stack of {k} pickles read from an open file after the working directory changed: {str(e)[:100]}",
+                              {"label": "stack", "hex": data[:3000].hex(), "k": k, "stream": "file-relative-then-chdir",
+                               "part_lens": [len(x) for x in parts]})
+                continue
+            agg.count("stack_checks")
+            if got != parts:
+                agg.violation("stack-partition:file-relative-then-chdir",
+                              f"stack of {k} pickles read from an open file (relative name, working directory changed since) parsed "
+                              f"into {len(got)} elements or other bytes",
+                              {"label": "stack", "hex": data[:3000].hex(), "k": k, "stream": "file-relative-then-chdir",
+                               "part_lens": [len(x) for x in parts], "got_lens": [len(x) for x in got]})
+        finally:
+            st.close()
+            os.chdir(ctx.scratch)
+    shutil.rmtree(here, ignore_errors=True)
+    shutil.rmtree(there, ignore_errors=True)
     for i, k, parts, data in stacks:
         # stack followed by an undecodable tail: observed, not asserted
         if i % 5 == 0:
